@@ -146,6 +146,22 @@ Definition dv_tx (w : hworld) (c : wcache) (a r : nat) (risk_admin_signs : bool)
   let* w3 := dv_end w2 a risk_admin_signs snap in
   Ok (w3, c2).
 
+(* lending_account_purge_delev_balance (risk admin, bank with TOKENLESS_REPAYMENTS_COMPLETE): the lender's
+   balance is closed and its shares leave the bank's total; no token moves *)
+Definition dv_purge (w : hworld) (a b : nat) (risk_admin_signs : bool) : res hworld :=
+  let* _ := check risk_admin_signs (E E_Unauthorized) in
+  let* hb := nth_bank w b in let* ac := nth_acct w a in
+  let bk := hb_b hb in
+  let* _ := check (is_marginfi_tag (b_asset_tag bk)) (E E_WrongAssetTagForStandardInstructions) in
+  let* _ := check (get_flag (b_flags bk) TOKENLESS_REPAYMENTS_COMPLETE) (E E_ForbiddenIx) in
+  let* i := match find_active (bank_pk b) (ha_la ac) with Some i => Ok i | None => Err (E E_BankAccountNotFound) end in
+  let* bl := nth_res i (ha_la ac) in
+  let* _ := check (negb (ZERO_AMOUNT_THRESHOLD <? fabs_w (bl_l bl))) (E E_OperationWithdrawOnly) in
+  let* neg := uneg (bl_a bl) in
+  let* bk2 := change_asset_shares (dec_lend bk) neg false in
+  Ok (put_hacct (put_hbank w b (set_hb_b bk2 hb)) a
+        (mkHA (sort_balances (set_nth i bal_empty (ha_la ac))) (ha_flags ac))).
+
 (* maintenance health of account a as the two receivership instructions compute it *)
 Definition maint_health (w : hworld) (a : nat) : res fx :=
   let* ac := nth_acct w a in
